@@ -22,7 +22,7 @@ SecByName(st, nm) ==
 \* definitions, not operator applications).
 Ctx(t) ==
   LET E == [nm \in SecNames(t.pre) |-> Edit(t.pre, t.reqs, Flat(SecByName(t.pre, nm)))]
-  IN  [t |-> t, E |-> E, P |-> [nm \in SecNames(t.pre) |-> PosSeq(E[nm])]]
+  IN  [t |-> t, E |-> E, P |-> [nm \in SecNames(t.pre) |-> PosSeq(E[nm])], reqs |-> t.reqs]
 
 (***************************************************************************)
 (* Domain                                                                  *)
